@@ -108,6 +108,7 @@ func g1Body(r *Repo, rep *Report, b *Body) {
 			return true
 		}
 		o := callee(info, c)
+		rep.distinct("G1@" + r.pos(c.Pos()))
 		allowKey := calleeName(o) + "|" + b.Name
 		par := b.Parent[c]
 		for {
@@ -425,7 +426,8 @@ func stmtsAfter(b *Body, s ast.Stmt) []ast.Stmt {
 	return nil
 }
 
-// terminates: the statement list always ends in return / no-return call / continue / break (leaves the straight path).
+// terminates: the statement list always ends in return / no-return call. `continue`/`break` do not count: an error branch
+// that stays inside a work loop neither reports the error nor guarantees progress (no such idiom exists in the tree).
 func terminates(info *types.Info, list []ast.Stmt) bool {
 	if len(list) == 0 {
 		return false
@@ -433,8 +435,6 @@ func terminates(info *types.Info, list []ast.Stmt) bool {
 	switch x := list[len(list)-1].(type) {
 	case *ast.ReturnStmt:
 		return true
-	case *ast.BranchStmt:
-		return x.Tok == token.CONTINUE || x.Tok == token.BREAK || x.Tok == token.GOTO
 	case *ast.ExprStmt:
 		if c, ok := x.X.(*ast.CallExpr); ok {
 			return isNoReturn(info, c)
